@@ -1,6 +1,8 @@
 """C16 — session table: random operation sequences over 24 keys, step-by-step dumps"""
 from .common import ident
 
+from . import auto
+
 PROP = 'C16'
 PREDICATE = 'C16'
 LEAN_TARGETS = ['LLTD.Props.C16']
@@ -46,6 +48,9 @@ def cases(rng, tier, X):
     out = []
     for k in range(n):
         out.append(('seq%d' % k, seq(rng, rng.randint(20, 200), rng.choice([3, 8, 17, 20, 24]))))
+    # universal automata schedule (all public calls, missing objects, near-colliding keys, bridged frames, every deadline): this check's predicate on it
+    for k in range(60 if tier == 'quick' else 6000):
+        out.append(('au%d' % k, auto.schedule(rng)))
     return out
 
 
